@@ -288,7 +288,9 @@ func checkC08(c *Ctx) {
 	if nAdd == 0 {
 		R.Note("no requestsWg.Add site: requests are not dispatched on goroutines of their own (see C06)")
 	}
-	R.Floor("C08-paired", 1)
+	if m.reqGo != nil {
+		R.Floor("C08-paired", 1)
+	}
 	c.R.NotDecided = append(c.R.NotDecided, "final census: no goroutine or descriptor of the connection remains (run-time)", "handlers that never return")
 	c.R.Assumptions = append(c.R.Assumptions, "WaitGroup.Wait returns only after the counter reached zero; Add happens-before Wait because both run on the connection goroutine")
 }
